@@ -102,12 +102,31 @@ type Env struct {
 	// and registered) in order in Apps.
 	LogApps bool
 	Apps    []Ev
+	nth     map[string]int // fetches so far per Seq variable
+}
+
+// Seq is a variable whose value changes with every fetch (a live reading):
+// the n-th Get answers Seq[n], the last element from then on.
+type Seq []interface{}
+
+func (s Seq) At(n int) interface{} {
+	if n >= len(s) {
+		n = len(s) - 1
+	}
+	return s[n]
 }
 
 func (env *Env) fetch(t *term.Term) (interface{}, error) {
 	v, ok := env.Vals[t.Name]
 	if !ok {
 		panic("reference: unbound variable " + t.Name)
+	}
+	if sq, isSeq := v.(Seq); isSeq {
+		if env.nth == nil {
+			env.nth = map[string]int{}
+		}
+		v = sq.At(env.nth[t.Name])
+		env.nth[t.Name]++
 	}
 	if e, isErr := v.(error); isErr {
 		env.Trace = append(env.Trace, Ev{Get: true, Name: t.Name, Err: e})
@@ -377,6 +396,15 @@ var Customs = map[string]CustomFn{
 		return 10*x + y, nil
 	},
 	"boom": func(a []interface{}) (interface{}, error) { return nil, ErrOp },
+	"bv": func(a []interface{}) (interface{}, error) { // fails AND hands back a value (a partial result)
+		if len(a) != 1 {
+			return nil, ErrBuiltin
+		}
+		if x, ok := a[0].(int64); ok && x == 1 {
+			return int64(10), ErrOp
+		}
+		return a[0], nil
+	},
 	"cat": func(a []interface{}) (interface{}, error) { // variadic, order sensitive: sum of (i+1)*3^i*a[i]
 		var s, w int64 = 0, 1
 		for i, x := range a {
